@@ -339,7 +339,9 @@ def run(ctx):
                         ctx.inconclusive("only %d interleavings explored for k=%d on %s" % (n, k, state))
         ctx.exhaustive = bool(all_complete)
         # extended points (S, C): the lazy CREATE TABLE inside the first insert on an empty file is part of "created successfully"
-        exhaustive(ctx, env, 2, "fresh", ["R", "S", "C", "I"], "RSCI", max_runs=600)
+        _n, ext_complete, _r = exhaustive(ctx, env, 2, "fresh", ["R", "S", "C", "I"], "RSCI", max_runs=600)
+        ctx.extra["exhaustive_scope"] = ("exhaustive=true refers to the R/I interleavings for k=2,3 on every database state; "
+                                         "extended R/S/C/I enumeration for k=2 on the fresh database complete: %s" % ext_complete)
         if not ctx.quick:
             exhaustive(ctx, env, 2, "prepared1", ["R", "S", "C", "I"], "RSCI", max_runs=600)
             sampled(ctx, env, 3, "fresh", ["R", "S", "C", "I"], "RSCI", 300)
